@@ -78,6 +78,8 @@ type GhostSet struct {
 	Exprs   []ast.Expr
 }
 
+var syncViewRe = regexp.MustCompile(`^(\w+)\((\w+)\)\s*:\s*\$(\w+)\s*,\s*\$(\w+)\s*,\s*\$(\w+)(?:\s+free\s+(\w+))?\s*$`)
+
 type LoopSpec struct {
 	Func       string
 	Ord        int
@@ -93,10 +95,19 @@ type TypeSpec struct {
 	Ghost     map[string]string // ghost field -> "int"|"bool"
 	Invariant []Clause
 	SyncMapInv map[string]Clause // field -> predicate over k, v: what the sync.Map held by that field contains
+	SyncView  map[string]*SyncView // field -> ghost view of the sync.Map held by that field
 	ChanOpen  map[string]bool   // fields whose channel is declared never closed ('chan f open: ...'): closing it is an obligation failure
 	ChanInv   map[string]Clause // field -> predicate over v: every value sent on the channel held by that field satisfies it (obligation at sends, assumption at receives)
 	AssumedInv []Clause // assumed when the lock is taken / at inv(x); not checked (listed as assumptions)
 	Props     []string
+}
+
+// SyncView: 'syncview f(K): $has, $tag, $val [free ch]' - the sync.Map held by field f, whose keys are of the
+// integer type K, is viewed through three ghost fields of the owning object (presence, and the dynamic type
+// and value of the entry); with 'free ch' the channel field ch is the map's free list: a key is stored only
+// after it was taken from ch, and put back on ch only after its entry was deleted.
+type SyncView struct {
+	Field, Key, Has, Tag, Val, Free string
 }
 
 type Specs struct {
@@ -806,6 +817,18 @@ func (sp *Specs) parseFile(path string, extern bool) error {
 				curT.SyncMapInv = map[string]Clause{}
 			}
 			curT.SyncMapInv[strings.TrimSpace(rest[:i])] = c
+		case "syncview":
+			if curT == nil {
+				return fail(fmt.Errorf("syncview outside type block"))
+			}
+			m := syncViewRe.FindStringSubmatch(rest)
+			if m == nil {
+				return fail(fmt.Errorf("syncview <field>(<key type>): $has, $tag, $val [free <chan field>]"))
+			}
+			if curT.SyncView == nil {
+				curT.SyncView = map[string]*SyncView{}
+			}
+			curT.SyncView[m[1]] = &SyncView{Field: m[1], Key: m[2], Has: m[3], Tag: m[4], Val: m[5], Free: m[6]}
 		case "assume-invariant":
 			if curT == nil {
 				return fail(fmt.Errorf("assume-invariant outside type block"))
